@@ -697,6 +697,12 @@ fn cases_for_instance(out: &mut Out, codec: Codec, prefix: &str, valid: bool, rn
     ] {
         probes.push(ProbeIn::Distinct { n1: n1.into(), n2: n2.into(), p2 });
     }
+    // a name and the address made from it are different names: their addresses must differ
+    for base in ["owner", "alice"] {
+        if let R::Ok(a) = Inst::new(codec, prefix).make(base) {
+            probes.push(ProbeIn::Distinct { n1: base.into(), n2: a, p2: prefix.to_string() });
+        }
+    }
     emit(out, &inp(probes));
     // D. every single-character corruption of sampled valid addresses (one case per address)
     if valid {
